@@ -12,7 +12,7 @@ def iter_pre(ctx, binary):
 
 
 def tensor_pre(ctx, binary):
-    g = ctx.cfg("tensor", "TensorGen.cfg", {"MaxExt": ctx.q("3", "5")})
+    g = ctx.cfg("tensor", "TensorGen.cfg", {"MaxExt": ctx.q("4", "5")})
     cases, n = ctx.gen("tensor", "TensorGen", g, "cases.ndjson", stage="gen", workers=8, timeout=ctx.q(900, 5000), coverage=False)
     v = ctx.replay(binary, "tensor", cases)
     ctx.distinct_nontrivial += v["extra"].get("nontrivial_cases", 0)
@@ -43,7 +43,7 @@ SPECS = {
     "mint": {
         "module": "MintTrace",
         "rule": ("I->S: (i) complete tables of +,-,*,/ (value and assigning forms), neg, inv, pow (d <= 2M), new (|v| <= 3M) and == for "
-                 "EVERY modulus 2..24 (thorough 2..48), each entry checked by TLC against the definition on native integers; (ii) single "
+                 "EVERY modulus 2..40 (thorough 2..48), each entry checked by TLC against the definition on native integers; (ii) single "
                  "operations on eight 31-bit moduli (998244353, 1e9+7, 2^31-1, 2^31-2, 2^31-19, 2^30+3, 2^30, 223092870) with boundary and "
                  "random operands, i64 extremes for new (also through the Readable impl), exponents up to u64::MAX, checked by TLC on "
                  "BigNat through the defining relation v = q*M + r, 0 <= r < M (quotients, Bezout pairs and square-and-multiply chains are "
@@ -58,7 +58,7 @@ SPECS = {
     "gcd": {
         "module": "GcdTrace",
         "rule": ("I->S: gcd and lcm of ALL pairs in -40..40 (0..40 unsigned) for each of the 12 integer types; egcd(a,b,c) for the whole "
-                 "cube |a|,|b|,|c| <= 12 (i64; smaller cubes for i32, i128), (a,b) != (0,0); crt for ALL moduli 1..14 (thorough 24) with "
+                 "cube |a|,|b|,|c| <= 12 (i64; smaller cubes for i32, i128), (a,b) != (0,0); crt for ALL moduli 1..18 (thorough 24) with "
                  "all reduced residues -- every entry checked by TLC against the tabulated definition (greatest common divisor by "
                  "divisibility, Some iff gcd | c and a*x+b*y=c, unique z in [0,lcm)); plus sampled large operands (|.| up to 2^20 for "
                  "egcd/crt, up to 2^60 / 2^100 for gcd/lcm on i64, u64, i128) checked on BigInt with witnesses (cofactors and a Bezout "
@@ -71,7 +71,7 @@ SPECS = {
     },
     "rational": {
         "module": "RationalTrace",
-        "rule": ("I->S: for every a/b, c/d with |.| <= 4 (thorough 6) and non-zero denominators of either sign, over i64 (smaller box for "
+        "rule": ("I->S: for every a/b, c/d with |.| <= 5 (thorough 6) and non-zero denominators of either sign, over i64 (smaller box for "
                  "i32, i128): new, +, -, *, / in by-value, by-reference and assigning form, cmp, ==, <, <=, hash equality; for every a/b "
                  "with |a| <= 3k: neg, floor, ceil -- every result checked by TLC against the cross-multiplication definitions and "
                  "canonical form (positive denominator, coprime); plus sampled operands up to 2^30 (i64), 2^14 (i32), 2^60 (i128) with "
@@ -85,7 +85,7 @@ SPECS = {
         "module": "SieveTrace",
         "release": True,
         "exhaustive": True,
-        "rule": ("I->S: Sieve::new(N) for EVERY N in 0..1500 (thorough 0..4000): the complete min_prime and is_prime tables and the prime "
+        "rule": ("I->S: Sieve::new(N) for EVERY N in 0..2000 (thorough 0..4000): the complete min_prime and is_prime tables and the prime "
                  "list compared by TLC with the tabulated arithmetic definitions (least divisor >= 2 by trial division); factorize(n) "
                  "through the real iterator for all n <= N at every 97th limit and for the top three n at every limit; N = 1e6 "
                  "(thorough also 1e7): 2.6k-6k sampled n (primes, prime squares +-1, products of two large primes, the last 100 entries, "
@@ -115,7 +115,7 @@ SPECS = {
         "module": "TensorTrace",
         "pre": tensor_pre,
         "exhaustive": True,
-        "rule": ("S->I: TLC enumerates EVERY shape of rank 1..4 with extents 1..3 (thorough 1..5; 120 / 780 shapes) and emits per shape every "
+        "rule": ("S->I: TLC enumerates EVERY shape of rank 1..4 with extents 1..4 (thorough 1..5; 340 / 780 shapes) and emits per shape every "
                  "valid multi-index with its row-major offset (Flat checked by TLC to be a bijection onto 0..count-1), every index out of "
                  "range in exactly one dimension by 0..2 (flagged when its flattened offset is still inside the storage), zero-extent and "
                  "length-mismatch constructor calls, every other shape of the same rank and element count, and the text rendering; the "
@@ -131,7 +131,7 @@ SPECS = {
         "release": True,
         "rule": ("I->S through the public trait method gen_from_u64 with ADVERSARIAL raw outputs (0, 1, 2^64-1, 2^53 and 2^63 neighbourhoods, "
                  "multiples of the range length +-1, the largest multiple below 2^64): every (start, end) pair of i8 and u8 (quick: every "
-                 "third start) in all five range forms, boundary ranges (length 1, 2^k, MAX, full width, MIN+1..=MAX) of the 16/32/64-bit and "
+                 "second start) in all five range forms, boundary ranges (length 1, 2^k, MAX, full width, MIN+1..=MAX) of the 16/32/64-bit and "
                  "pointer-sized types; reachability of every value of small ranges; twelve half-open float ranges (incl. denormal, huge, "
                  "one-ulp-wide) x 118 raws compared in IEEE order on bit patterns; equal-seed / copied generators; shuffles as permutations; "
                  "arrangement histograms of 1..k (k <= 5, thorough 6) over 1e5 (5e5) random seeds: all k! reached, each within 30% of the "
